@@ -10,10 +10,12 @@ go build -o "$scratch/vrewrite" ./cmd/vrewrite || exit 1
 "$scratch/vrewrite" -out "$scratch/vr" || exit 1
 for d in cmd/*/; do
   n=$(basename "$d")
-  if [ -f "$d/VSCHED" ]; then
-    go build -overlay "$scratch/vr/overlay.json" -o "$scratch/$n" "./cmd/$n" || exit 1
-  else
-    go build -o "$scratch/$n" "./cmd/$n" || exit 1
+  ov=()
+  if [ -f "$d/VSCHED" ]; then ov=(-overlay "$scratch/vr/overlay.json"); fi
+  go build "${ov[@]}" -o "$scratch/$n" "./cmd/$n" || exit 1
+  if [ -f "$d/RACE" ] || [ -f "$d/RACE_ON_DEMAND" ]; then
+    # the -race variants (data-race passes of C13/C14, C17's TLS harness called by C13)
+    go build -race "${ov[@]}" -o "$scratch/$n.race" "./cmd/$n" || exit 1
   fi
 done
 echo setup ok
